@@ -589,7 +589,22 @@ func (x *Exec) tokenString(id *big.Int) string {
 			return s
 		}
 	}
-	return "zq" + id.String() + "x"
+	// a token that is no interned string: deterministic, NFKD-stable, whitespace-free text of varied shape
+	n := new(big.Int).Sub(id, big.NewInt(UnkBase))
+	ns := n.String()
+	switch new(big.Int).Mod(n, big.NewInt(6)).Int64() {
+	case 1:
+		return strings.Repeat("あ", 15) + ns // > 40 bytes, < 40 runes
+	case 2:
+		return strings.Repeat("a", 50) + ns
+	case 3:
+		return "e\u0323\u0301q" + ns // combining marks in canonical order
+	case 4:
+		return "かな" + ns
+	case 5:
+		return "ABANDON" + ns
+	}
+	return "zq" + ns + "x"
 }
 
 // evalStr renders a string value under a model (for predicted-vs-actual validation).
